@@ -129,7 +129,11 @@ pub fn run_case(ctx: &mut Ctx, fam: &str, _k: u64, r: &mut Rng) {
         } else if c < 88 {
             let live = h.live();
             let n = *r.pick(&live);
-            h.toggle(n, r.chance(1, 2));
+            if r.chance(1, 3) {
+                h.rebind_flag(n, r.chance(1, 2));
+            } else {
+                h.toggle(n, r.chance(1, 2));
+            }
         } else if c < 95 {
             let n = *r.pick(&live_ops);
             h.drop_handle(n);
